@@ -62,17 +62,17 @@ func manifestWith(constraints string) string {
 }
 
 var images = map[string]imageClass{
-	"v1":      {Name: "v1", Files: with(objs("a", "b"), map[string]string{"manifest.yaml": baseManifest.YAML()})},
-	"v2":      {Name: "v2", Files: with(objs("a", "c"), map[string]string{"manifest.yaml": baseManifest.YAML()})},
-	"tmpl":    {Name: "tmpl", Files: with(objs("a"), map[string]string{"manifest.yaml": baseManifest.YAML(), "t.yaml.gotmpl": pkgw.WidgetYAML("Widget", "t", "p2", "{{ default 7 .config.x }}", nil)})},
-	"missing": {Name: "missing", Invalid: "pull"},
-	"nomanifest": {Name: "nomanifest", Files: objs("a"), Invalid: "load"},
-	"twomanifests": {Name: "twomanifests", Files: with(objs("a"), map[string]string{"manifest.yaml": baseManifest.YAML(), "manifest.yml": baseManifest.YAML()}), Invalid: "load"},
-	"badyaml":  {Name: "badyaml", Files: with(objs("a"), map[string]string{"manifest.yaml": baseManifest.YAML(), "z.yaml": "kind: [unclosed\n"}), Invalid: "object"},
-	"nophase":  {Name: "nophase", Files: with(objs("a"), map[string]string{"manifest.yaml": baseManifest.YAML(), "z.yaml": pkgw.WidgetYAML("Widget", "z", "", "1", map[string]string{"note": "no phase"})}), Invalid: "object"},
+	"v1":            {Name: "v1", Files: with(objs("a", "b"), map[string]string{"manifest.yaml": baseManifest.YAML()})},
+	"v2":            {Name: "v2", Files: with(objs("a", "c"), map[string]string{"manifest.yaml": baseManifest.YAML()})},
+	"tmpl":          {Name: "tmpl", Files: with(objs("a"), map[string]string{"manifest.yaml": baseManifest.YAML(), "t.yaml.gotmpl": pkgw.WidgetYAML("Widget", "t", "p2", "{{ default 7 .config.x }}", nil)})},
+	"missing":       {Name: "missing", Invalid: "pull"},
+	"nomanifest":    {Name: "nomanifest", Files: objs("a"), Invalid: "load"},
+	"twomanifests":  {Name: "twomanifests", Files: with(objs("a"), map[string]string{"manifest.yaml": baseManifest.YAML(), "manifest.yml": baseManifest.YAML()}), Invalid: "load"},
+	"badyaml":       {Name: "badyaml", Files: with(objs("a"), map[string]string{"manifest.yaml": baseManifest.YAML(), "z.yaml": "kind: [unclosed\n"}), Invalid: "object"},
+	"nophase":       {Name: "nophase", Files: with(objs("a"), map[string]string{"manifest.yaml": baseManifest.YAML(), "z.yaml": pkgw.WidgetYAML("Widget", "z", "", "1", map[string]string{"note": "no phase"})}), Invalid: "object"},
 	"openshiftonly": {Name: "openshiftonly", Files: with(objs("a", "b"), map[string]string{"manifest.yaml": manifestWith("  - platform: [OpenShift]\n")}), Invalid: "constraint-platform"},
-	"k8s130":   {Name: "k8s130", Files: with(objs("a", "b"), map[string]string{"manifest.yaml": manifestWith("  - platformVersion:\n      name: Kubernetes\n      range: \">=1.30.0\"\n")}), Invalid: "constraint-version"},
-	"unique":   {Name: "unique", Files: with(objs("a", "b"), map[string]string{"manifest.yaml": manifestWith("  - uniqueInScope: {}\n")}), Invalid: "constraint-unique"},
+	"k8s130":        {Name: "k8s130", Files: with(objs("a", "b"), map[string]string{"manifest.yaml": manifestWith("  - platformVersion:\n      name: Kubernetes\n      range: \">=1.30.0\"\n")}), Invalid: "constraint-version"},
+	"unique":        {Name: "unique", Files: with(objs("a", "b"), map[string]string{"manifest.yaml": manifestWith("  - uniqueInScope: {}\n")}), Invalid: "constraint-unique"},
 }
 
 // constraint grammar: one manifest constraint entry = optional platform list x optional platform
@@ -156,11 +156,13 @@ type scenario struct {
 	Faults int      `json:"faults"`
 	Pauses int      `json:"pauses"`
 	Races  int      `json:"races"`
-	Twin   bool     `json:"twin"` // a second Package using the same manifest name exists
+	// LongLived: all passes of a history run in one operator process (states rebuilt by path replay)
+	LongLived bool `json:"longLived"`
+	Twin      bool `json:"twin"` // a second Package using the same manifest name exists
 }
 
 func (sc scenario) name() string {
-	return fmt.Sprintf("package env=%s images=%v configs=%v edits=%d faults=%d pauses=%d races=%d twin=%v", sc.Env, sc.Images, sc.Confs, sc.Edits, sc.Faults, sc.Pauses, sc.Races, sc.Twin)
+	return fmt.Sprintf("package env=%s images=%v configs=%v edits=%d faults=%d pauses=%d races=%d twin=%v longLived=%v", sc.Env, sc.Images, sc.Confs, sc.Edits, sc.Faults, sc.Pauses, sc.Races, sc.Twin, sc.LongLived)
 }
 
 var pkgKey = world.PKOKey("Package", world.NS, "p")
@@ -382,9 +384,13 @@ func specDigest(c map[string]any) string {
 
 func system(sc scenario) *world.System {
 	return &world.System{
-		Name: sc.name(),
+		Name:       sc.name(),
+		Persistent: sc.LongLived,
 		Init: func() *world.World {
 			w := osw.NewWorld()
+			if sc.LongLived {
+				w.LongLived()
+			}
 			w.Pkg = &world.PackageEnv{Images: map[string]map[string]string{}, Env: envs[sc.Env]}
 			for n, ic := range images {
 				if ic.Files != nil {
@@ -540,6 +546,7 @@ func scenarios(quick bool) []scenario {
 		{Env: "k8s-1.27", Images: []string{"v1", "v2", "tmpl"}, Confs: []string{"none", "x1"}, Edits: 2, Races: 1},
 		{Env: "k8s-1.27", Images: append([]string{"v1"}, consImageNames()...), Confs: []string{"none"}, Edits: 2},
 		{Env: "ocp-4.12", Images: append([]string{"v1"}, consImageNames()...), Confs: []string{"none"}, Edits: 2},
+		{Env: "k8s-1.27", Images: []string{"v1", "v2", "tmpl", "nophase", "missing"}, Confs: []string{"none", "x1", "x2"}, Edits: 3, LongLived: true},
 	}
 	if !quick {
 		out = append(out,
@@ -554,7 +561,7 @@ func scenarios(quick bool) []scenario {
 
 func run(o checks.Opts) *report.Report {
 	rep := report.New("C16", "bfs")
-	rep.Rule = "explicit-state BFS: Package p whose image is switched among {valid v1, valid v2, templated, not in registry, no manifest, two manifests, malformed object YAML, object without phase annotation, OpenShift-only, Kubernetes>=1.30, uniqueInScope, and every manifest constraint entry of the grammar {no platform, [Kubernetes], [OpenShift]} x {no version, Kubernetes met/unmet, OpenShift met/unmet} as one entry and as two entries in either order} and whose config among {none, x:1, x:2, schema-violating}, 2-3 edits, pause/unpause, a foreign write to the ObjectDeployment landing before each API call of the pass (update conflict), every fault kind at every API call of the Package controller's pass, environments Kubernetes 1.27 / OpenShift 4.12, optional twin Package with the same manifest name; real Package controller + PackageDeployer + scripted registry; monitor on every Package pass; fresh-render differential oracle for valid specs"
+	rep.Rule = "explicit-state BFS: Package p whose image is switched among {valid v1, valid v2, templated, not in registry, no manifest, two manifests, malformed object YAML, object without phase annotation, OpenShift-only, Kubernetes>=1.30, uniqueInScope, and every manifest constraint entry of the grammar {no platform, [Kubernetes], [OpenShift]} x {no version, Kubernetes met/unmet, OpenShift met/unmet} as one entry and as two entries in either order} and whose config among {none, x:1, x:2, schema-violating}, 2-3 edits, pause/unpause, a foreign write to the ObjectDeployment landing before each API call of the pass (update conflict), every fault kind at every API call of the Package controller's pass, environments Kubernetes 1.27 / OpenShift 4.12, one system with all passes in one long-lived operator process, optional twin Package with the same manifest name; real Package controller + PackageDeployer + scripted registry; monitor on every Package pass; fresh-render differential oracle for valid specs"
 	scs := scenarios(o.Quick())
 	rep.Bounds["systems"] = len(scs)
 	for i, sc := range scs {
@@ -587,9 +594,9 @@ func init() {
 		},
 		Subs: []*checks.Sub{{Name: "bfs", Shards: func(t string) int {
 			if t == "thorough" {
-				return 10
+				return 11
 			}
-			return 7
+			return 8
 		}, Run: run, Replay: replay, Parallel: true}},
 	})
 }
